@@ -712,19 +712,11 @@ class BinaryOp(Expr):
             return -1 if x else 0
 
         def limit(x):
-            if not self.left.type.is_integral:
-                return x
-
-            c_type = {
-                Type.INTEGER: ctypes.c_short,
-                Type.LONG: ctypes.c_long,
-                Type.SINGLE: ctypes.c_float,
-                Type.DOUBLE: ctypes.c_double,
-            }[self.type]
-            result = c_type(x).value
-            if result != x:
+            # the result must be a value the result type can hold at
+            # run time (same range check and rounding as a QVM cell)
+            if not self.type.can_hold(x):
                 raise OverflowError
-            return result
+            return self.type.coerce(x)
 
         result = {
             Operator.CMP_EQ: lambda a, b: qbool(a == b),
